@@ -258,6 +258,26 @@ class Machine:
                 if got != want or ne == got:
                     self.V('C20', 'domain-equality', [a['model'][0], b['model'][0], 'after-' + opname],
                            f'dom{i}==dom{j}: got {got}, != gives {ne}, want {want}')
+        # ... and against short-lived domains built for the comparison only (equal content, then different content): the
+        # verdict must depend on content, not on which objects happened to be compared before
+        F_ = self.fggs
+        for i, a in enumerate(self.doms[:4]):
+            if a['model'][0] != 'finite':
+                continue
+            vals = list(a['model'][1])
+            for want, other in ((True, list(vals)), (False, (vals[::-1] if len(vals) > 1 and vals[::-1] != vals else vals + ['#other'])),
+                                (True, list(vals))):
+                try:
+                    tmp = F_.FiniteDomain(other)
+                except Exception:
+                    break
+                got = (a['real'] == tmp)
+                got2 = (tmp == a['real'])
+                del tmp
+                if got != want or got2 != want:
+                    self.V('C20', 'domain-equality', ['finite', 'temporary', 'after-' + opname],
+                           f'dom{i} ({vals!r}) == a fresh domain over {other!r}: got {got} / reversed {got2}, want {want}')
+            self.c.inc('probe.domain-vs-temporary')
         for fi, f in enumerate(self.facs):
             real = f['real']
             dm = [self.doms[k]['model'] for k in f['doms']]
